@@ -13,6 +13,7 @@ pub mod render;
 pub mod isa;
 pub mod oracle;
 pub mod par;
+pub mod pool;
 pub mod props;
 pub mod run;
 
@@ -38,6 +39,8 @@ fn main() {
         usage();
     }
     match args[1].as_str() {
+        "worker" => pool::worker_main(false),
+        "worker-full" => pool::worker_main(true),
         "selftest" => match isa::self_test() {
             Ok(n) => {
                 println!("selftest ok ({} pinned encodings)", n);
